@@ -59,9 +59,9 @@ APIS = ["text", "pages", "fp_text", "fp_xml"]
 def minimums(tier: str) -> Dict[str, int]:
     if tier == "quick":
         return {"evaluations": 4000, "distinct": 150, "calls_compared": 4000, "fingerprint_checks": 4000, "interleaved_pages": 300,
-                "seen:docs_used": 21, "page_at_a_time_calls": 300, "caching_off_calls": 800}
+                "seen:docs_used": 26, "page_at_a_time_calls": 300, "caching_off_calls": 800}
     return {"evaluations": 120000, "distinct": 4000, "calls_compared": 120000, "fingerprint_checks": 120000, "interleaved_pages": 20000,
-            "seen:docs_used": 21, "page_at_a_time_calls": 9000, "caching_off_calls": 25000}
+            "seen:docs_used": 26, "page_at_a_time_calls": 9000, "caching_off_calls": 25000}
 
 
 # --------------------------------------------------------------------------
@@ -129,6 +129,45 @@ def build_pool() -> List[Dict[str, Any]]:
     add("tt-notu", _simple_doc(dict(tt), t2).build(), "tounicode")
     d, o = seed_type0()
     add("type0", build(d, o), "cmap")
+    # two Type0 fonts sharing ONE descendant CIDFont object, one with and one without ToUnicode, on different pages
+    sd = Doc()
+    sfd = sd.add({"Type": N("FontDescriptor"), "FontName": N("Shared"), "Flags": 4, "FontBBox": [0, -200, 1000, 800], "ItalicAngle": 0,
+                  "Ascent": 800, "Descent": -200, "CapHeight": 700, "StemV": 80})
+    scid = sd.add({"Type": N("Font"), "Subtype": N("CIDFontType2"), "BaseFont": N("Shared"),
+                   "CIDSystemInfo": {"Registry": b"Adobe", "Ordering": b"Identity", "Supplement": 0}, "FontDescriptor": sfd, "DW": 600})
+    stu = sd.add(Stream({}, _tounicode([(1, "X"), (2, "Y")], 2)))
+    sfa = sd.add({"Type": N("Font"), "Subtype": N("Type0"), "BaseFont": N("Shared"), "Encoding": N("Identity-H"), "DescendantFonts": [scid], "ToUnicode": stu})
+    sfb = sd.add({"Type": N("Font"), "Subtype": N("Type0"), "BaseFont": N("Shared"), "Encoding": N("Identity-H"), "DescendantFonts": [scid]})
+    scat, spg = sd.alloc(), sd.alloc()
+    skids = []
+    for fref in (sfa, sfb, sfa):
+        c = sd.add(Stream({}, b"BT /F1 12 Tf 30 200 Td <00010002> Tj ET"))
+        skids.append(sd.add({"Type": N("Page"), "Parent": spg, "MediaBox": [0, 0, 300, 300], "Resources": {"Font": {"F1": fref}}, "Contents": c}))
+    sd.set(spg, {"Type": N("Pages"), "Kids": skids, "Count": 3})
+    sd.set(scat, {"Type": N("Catalog"), "Pages": spg})
+    sd.trailer["Root"] = scat
+    add("type0-shared-descendant", sd.build(), "cmap")
+    # horizontal and vertical CID fonts of ONE predefined collection, no ToUnicode, showing CIDs whose horizontal and
+    # vertical Unicode values differ (arrows, box-drawing lines): the unicode maps are cached per collection
+    for mode in ("H", "V"):
+        jd = Doc()
+        jfd = jd.add({"Type": N("FontDescriptor"), "FontName": N("J" + mode), "Flags": 4, "FontBBox": [0, -200, 1000, 800], "ItalicAngle": 0,
+                      "Ascent": 800, "Descent": -200, "CapHeight": 700, "StemV": 80})
+        jcid = jd.add({"Type": N("Font"), "Subtype": N("CIDFontType0"), "BaseFont": N("J" + mode),
+                       "CIDSystemInfo": {"Registry": b"Adobe", "Ordering": b"Japan1", "Supplement": 2}, "FontDescriptor": jfd, "DW": 1000})
+        jf = jd.add({"Type": N("Font"), "Subtype": N("Type0"), "BaseFont": N("J" + mode), "Encoding": N("Identity-" + mode), "DescendantFonts": [jcid]})
+        jcat, jpg = jd.alloc(), jd.alloc()
+        jk = []
+        for cids in ((736, 737, 7479, 843), (738, 7481, 844)):
+            c = jd.add(Stream({}, b"BT /F1 12 Tf 100 200 Td <" + b"".join(b"%04X" % x for x in cids) + b"> Tj ET"))
+            jk.append(jd.add({"Type": N("Page"), "Parent": jpg, "MediaBox": [0, 0, 300, 300], "Resources": {"Font": {"F1": jf}}, "Contents": c}))
+        jd.set(jpg, {"Type": N("Pages"), "Kids": jk, "Count": 2})
+        jd.set(jcat, {"Type": N("Catalog"), "Pages": jpg})
+        jd.trailer["Root"] = jcat
+        add("japan1-" + mode, jd.build(), "cmap")
+    # a base encoding name pdfminer has no table for (valid PDF: MacExpertEncoding) with Differences
+    add("macexpert-diff", _simple_doc(dict(helv, Encoding={"Type": N("Encoding"), "BaseEncoding": N("MacExpertEncoding"),
+                                                           "Differences": [65, N("Z"), N("Y"), 32, N("underscore")]}), t2).build(), "enc:StandardEncoding")
     d, o = seed_type3()
     add("type3", build(d, o), "misc")
     d, o = seed_graphics()
@@ -153,6 +192,13 @@ def build_pool() -> List[Dict[str, Any]]:
     gdoc.set(gcat, {"Type": N("Catalog"), "Pages": gpg})
     gdoc.trailer["Root"] = gcat
     add("grid-ties", gdoc.build(), "misc")
+    # six words of unequal width in three columns: several pairs of boxes are exactly equidistant and the merge
+    # order decides the READING order (found by the C11 builder: group_textboxes broke such ties by id(obj))
+    from vf.gen.pdfw import page_doc
+    words = [(250, 170, b"w4m"), (60, 130, b"w1"), (150, 130, b"w0mmmmmmmm"), (250, 130, b"w3mm"), (60, 90, b"w5m"), (250, 90, b"w2m")]
+    tcont = b" ".join(b"BT /F1 10 Tf 1 0 0 1 %d %d Tm (%s) Tj ET" % w for w in words)
+    add("word-ties", page_doc([{"content": tcont, "resources": {"Font": {"F1": font_type1("Helvetica")}}, "mediabox": [0, 0, 400, 300]},
+                               {"content": tcont.replace(b"w0mmmmmmmm", b"w0mm"), "resources": {"Font": {"F1": font_type1("Helvetica")}}, "mediabox": [0, 0, 400, 300]}]).build(), "misc")
     # encrypted twins of plain-WinAnsiEncoding (same text, same object numbers)
     tw = _simple_doc(dict(helv, Encoding=N("WinAnsiEncoding")), t2)
     enc = StdEncryptor(2, 3, 128, None, b"", b"owner", -3904, random.Random(1201), id0=b"0123456789abcdef", id1=b"0123456789abcdef")
@@ -273,6 +319,7 @@ def shards(tier: str, seed: int) -> List[Dict[str, Any]]:
     root = os.path.join(VERIF_ROOT, ".work")
     os.makedirs(root, exist_ok=True)
     workdir = tempfile.mkdtemp(prefix="c12-", dir=root)
+    _WORKDIRS.append(workdir)
     path = compute_baselines(workdir)
     q = tier == "quick"
     n = 16 if q else 48
@@ -331,18 +378,21 @@ class SharedState:
             if k in self.small and self.small[k] != v:
                 changed.append(k)
             self.small.setdefault(k, v)
-        for name, cm in list(CMapDB._cmap_cache.items()):
+        for name, cm in list(getattr(CMapDB, "_cmap_cache", {}).items()):
             key = "cmap:" + name
+            val = _fp([getattr(cm, "code2cid", None), getattr(cm, "attrs", None)])
             if key not in self.cmaps:
-                self.cmaps[key] = _fp([cm.code2cid, cm.attrs])
-            elif deep and self.cmaps[key] != _fp([cm.code2cid, cm.attrs]):
+                self.cmaps[key] = val
+            elif deep and self.cmaps[key] != val:
                 changed.append(key)
-        for name, pair in list(CMapDB._umap_cache.items()):
-            for i, um in enumerate(pair):
+        for name, pair in list(getattr(CMapDB, "_umap_cache", {}).items()):
+            # the layout of the cache is an internal detail: fingerprint whatever objects it holds
+            for i, um in enumerate(pair if isinstance(pair, (list, tuple)) else [pair]):
                 key = "umap:%s:%d" % (name, i)
+                val = _fp([getattr(um, "cid2unichr", None), getattr(um, "attrs", None)])
                 if key not in self.cmaps:
-                    self.cmaps[key] = _fp([um.cid2unichr, um.attrs])
-                elif deep and self.cmaps[key] != _fp([um.cid2unichr, um.attrs]):
+                    self.cmaps[key] = val
+                elif deep and self.cmaps[key] != val:
                     changed.append(key)
         return changed
 
@@ -372,8 +422,13 @@ def perturb_heap(rng: random.Random) -> None:
 
     objs: List[Any] = [LTTextBoxHorizontal() if i % 2 else LTTextLineHorizontal(0.1) for i in range(rng.randint(500, 4000))]
     rng.shuffle(objs)
-    while objs:
-        objs.pop()
+    del objs[: len(objs) // 2]      # half of the blocks go back to the free lists in shuffled address order
+    _KEEP.append(objs)              # the other half stays alive for a while
+    if len(_KEEP) > 6:
+        _KEEP.pop(0)
+
+
+_KEEP: List[Any] = []
 
 
 def run_history(rec, pool, base, rng: random.Random, hid: str, shared: SharedState) -> List[Tuple[str, str]]:
@@ -524,11 +579,13 @@ def run_shard(spec: Dict[str, Any], rec) -> None:
         pass  # the baseline directory is removed by the last shard to finish: see finish()
 
 
+_WORKDIRS: List[str] = []
+
+
 def finish(agg: Dict[str, Any], tier: str) -> Dict[str, Any]:
-    import glob
     import shutil
 
-    for d in glob.glob(os.path.join(VERIF_ROOT, ".work", "c12-*")):
+    for d in _WORKDIRS:     # only this run's own baseline directory (other runs may be in progress)
         shutil.rmtree(d, ignore_errors=True)
     return {"pool": [d["name"] + " [" + d["group"] + "]" for d in build_pool()]}
 
